@@ -1094,6 +1094,6 @@ def _requires_case(kind):
     return Case(kind, build, crosscheck=False)
 
 
-CONTRACTS.append(Contract("wntr.network.controls:AndCondition/OrCondition/ControlBase.requires", P, [_requires_case(k) for k in ("and", "or", "nested", "rule", "rule_else")],
+CONTRACTS.append(Contract("wntr.network.controls:AndCondition/OrCondition/ControlBase.requires", P + ["C19"], [_requires_case(k) for k in ("and", "or", "nested", "rule", "rule_else")],
                           note="what remove_node / remove_link consult before refusing: fixed small operand sets with shared elements",
                           trusted=["leaf conditions and actions return the elements they hold (one-line methods)"]))
